@@ -104,3 +104,9 @@ package txwatcher
 //@ requires mi(startingHeight) + mi(safetyLimit) < 4294967295
 //@ loop 0 invariant !ghost.reported
 //@ ensures @C20 reported-on-exit: ghost.reported || ghost.cancelSeen
+
+// per-block CSV check of every registered output: the callback fires only for an
+// output whose gettxout answer shows at least its registered csv confirmations
+//@ func (*BlockchainRpcTxWatcher).HandleCsvTx
+//@ property C20
+//@ requires s != nil && s.csvtxWatchList != nil
